@@ -8,7 +8,11 @@ Open Scope N_scope.
 Inductive call :=
 | KIntn (n : Z) | KInt63n (n : Z) | KRange (mn mx : Z) | KFlip (wbits : N) | KPerm (n : nat).
 Inductive result := RInt (v : Z) | RBool (b : bool) | RPerm (l : list Z).
-Inductive case := CCall (s : stream) (c : call) (r : result) (next8 : bytes).
+(* CSalt: two salts used with one seed and the first 8 bytes of the two salted streams (property oracle:
+   deterministic in (seed, salt), different across salts). *)
+Inductive case :=
+| CCall (s : stream) (c : call) (r : result) (next8 : bytes)
+| CSalt (salt1 salt2 : bytes) (out1 out2 : bytes).
 
 Definition fuel := 64%nat.
 Definition next_ok (rest : stream) (next8 : bytes) : bool := bytes_eqb (firstn 8 rest) next8.
@@ -25,5 +29,6 @@ Definition check (c : case) : bool :=
       match flip (fw_of_bits w) s with Some (b', r) => Bool.eqb b' b && next_ok r nx | None => false end
   | CCall s (KPerm n) (RPerm l) nx =>
       match perm fuel n s with Some (l', r) => list_eqb Z.eqb l' l && next_ok r nx | None => false end
+  | CSalt s1 s2 o1 o2 => Bool.eqb (bytes_eqb s1 s2) (bytes_eqb o1 o2)
   | _ => false
   end.
